@@ -264,7 +264,7 @@ def immut(pa, pA, a, s):
 
 def build(tier, seed):
     quick = tier == "quick"
-    tmo = 120 if quick else 900
+    tmo = 120 if quick else 400
     probes = ["lit01", "litFT", "lit01234", "litFT234", "lit_a0", "lit_aF", "U_lit0_str", "U_litF_str", "MA", "MB", "MC", "MD", "ME",
               "Rec", "Rec2", "Gen_int", "Gen_bool", "Gen_lit0", "Gen_litF", "list_int", "List_int", "Seq_int", "list_bool",
               "U_int_str", "U_str_int", "Opt_int", "Opt_bool", "N1", "N2", "Ann_a", "Ann_b", "D_lit0", "D_litF", "T_lit1", "T_litT",
